@@ -1,0 +1,28 @@
+// SPDX-FileCopyrightText: 2026 The Pion community <https://pion.ly>
+// SPDX-License-Identifier: MIT
+
+//go:build verif
+
+package gcc
+
+// VerifC11Stream reports whether the pacer holds a writer for ssrc (lifecycle
+// check C11). The entry has no history: a Bind always replaces it, so it is
+// always fresh.
+func (e *SendSideBWE) VerifC11Stream(ssrc uint32) (exists, fresh bool) {
+	switch p := e.pacer.(type) {
+	case *LeakyBucketPacer:
+		p.writerLock.RLock()
+		defer p.writerLock.RUnlock()
+		_, ok := p.ssrcToWriter[ssrc]
+
+		return ok, true
+	case *NoOpPacer:
+		p.lock.Lock()
+		defer p.lock.Unlock()
+		_, ok := p.ssrcToWriter[ssrc]
+
+		return ok, true
+	}
+
+	return false, true
+}
